@@ -507,7 +507,10 @@ impl std::fmt::Debug for FileId {
 
 /// The next file ID to use. This is global so file IDs do not conflict between different compiler
 /// instances.
+#[cfg(not(apollo_rs_verif))]
 static NEXT: AtomicU64 = AtomicU64::new(INITIAL);
+#[cfg(apollo_rs_verif)]
+static NEXT: crate::verif_hooks::TracedAtomicU64 = crate::verif_hooks::TracedAtomicU64::new(INITIAL);
 static INITIAL: u64 = 3;
 
 const TAG: u64 = 1 << 63;
@@ -545,6 +548,20 @@ impl FileId {
                 Self::reset()
             }
         }
+    }
+
+    /// Verification only: set the file ID counter to an arbitrary value.
+    #[cfg(apollo_rs_verif)]
+    #[doc(hidden)]
+    pub fn verif_set_next(value: u64) {
+        NEXT.set_untraced(value)
+    }
+
+    /// Verification only: the raw value of this ID.
+    #[cfg(apollo_rs_verif)]
+    #[doc(hidden)]
+    pub fn verif_raw(self) -> u64 {
+        self.id.get()
     }
 
     /// Reset file ID counter back to its initial value, used to get consistent results in tests.
